@@ -1001,7 +1001,7 @@ Section WithOrd.
       splits; auto. }
     destruct Hctl3 as (Eq3 & Er3 & Eb3 & Es3 & Ec3 & Ecl3 & Hshut3).
     (* deregister *)
-    assert (Hnil : forall B r, In r (@nil nat) -> k < r /\ r < B) by (intros B r Hr; destruct Hr).
+    assert (Hnil : forall bb r, In r (@nil nat) -> k < r /\ r < bb) by (intros bb r Hr; destruct Hr).
     unfold deregister.
     rewrite (subscribe_only_to_eq (run := None)) by auto.
     set (s4 := sub_result k [] s3).
@@ -1037,9 +1037,9 @@ Section WithOrd.
       cbv zeta in G. destruct G as (F1 & F2 & F3 & F4 & F5 & F6 & F7).
       split; [ | split].
       + constructor; rewrite ?F1, ?F2, ?F3, ?F4, ?F5; ssimpl; rewrite ?fupd_eq;
-          ssimpl in Ec6; ssimpl in Eq6; ssimpl in Es6; rewrite ?Ec6, ?Eq6, ?Es6; try congruence.
+          rewrite ?Ec6, ?Eq6, ?Es6; try congruence.
         all: intros e' E; discriminate.
-      + intros q'. rewrite F3. ssimpl in Eq6. ssimpl. rewrite Eq6. discriminate.
+      + intros q'. rewrite F3. ssimpl. rewrite Eq6. discriminate.
       + intros tid'. rewrite F4. ssimpl. rewrite fupd_eq. discriminate.
     - split; auto.
       intros k'. destruct (Nat.eq_dec k' k) as [-> | Hk']; auto.
